@@ -57,14 +57,30 @@ class Cell(NullCell):
             return LevelMask(int(self.bits[8:16].to01(), 2))
         elif self.type_ == CellTypes.merkle_proof:
             # merkle proof cell has exactly one ref
+            self._check_merkle_cell(1)
             return LevelMask(self.refs[0].level_mask.mask >> 1)
         elif self.type_ == CellTypes.merkle_update:
             # merkle update cell has exactly 2 refs
+            self._check_merkle_cell(2)
             return LevelMask((self.refs[0].level_mask.mask | self.refs[1].level_mask.mask) >> 1)
         elif self.type_ == CellTypes.library_ref:
             return LevelMask(0)
         else:
             raise CellError(f'Unknown cell type: {self.type_}')
+
+    def _check_merkle_cell(self, refs_num: int) -> None:
+        # crypto/vm/cells/DataCell.cpp: a Merkle proof / update cell is its type byte, then the level-0 hash of every child,
+        # then the level-0 depth of every child - and nothing else
+        if len(self.bits) != 8 + refs_num * (256 + 16):
+            raise CellError('Wrong data length for a Merkle cell')
+        if len(self.refs) != refs_num:
+            raise CellError('Wrong references count for a Merkle cell')
+        data = self.bits.tobytes()
+        for i, ref in enumerate(self.refs):
+            if data[1 + 32 * i: 33 + 32 * i] != ref.get_hash(0):
+                raise CellError('Hash mismatch in a Merkle cell')
+            if int.from_bytes(data[1 + 32 * refs_num + 2 * i: 3 + 32 * refs_num + 2 * i], 'big') != ref.get_depth(0):
+                raise CellError('Depth mismatch in a Merkle cell')
 
     def to_builder(self):
         if self.is_exotic:
